@@ -192,6 +192,78 @@ func c15SameNamedTypes(c *run.Ctx) {
 	}
 }
 
+type c15P struct {
+	A float64 `yae:"a"`
+	B string  `yae:"b"`
+	C []bool  `yae:"c"`
+}
+
+type c15Q struct { // the same fields as c15P, declared in another order
+	C []bool  `yae:"c"`
+	B string  `yae:"b"`
+	A float64 `yae:"a"`
+}
+
+type c15R struct {
+	B string  `yae:"b"`
+	A float64 `yae:"a"`
+	C []bool  `yae:"c"`
+}
+
+// interface-typed containers whose elements are different Go struct types of
+// one object type (same field names and types, other declaration order)
+func c15MixedLayouts(c *run.Ctx) {
+	if !c.Mine(6) {
+		return
+	}
+	c.Case("mixed-layouts", func() {
+		t := ref.TObj(ref.F("a", ref.TNum), ref.F("b", ref.TStr), ref.F("c", ref.TList(ref.TBool)))
+		mk := func(a float64, b string, cs ...bool) *ref.V {
+			l := ref.VList(ref.TBool)
+			for _, x := range cs {
+				l.L = append(l.L, ref.VBool(x))
+			}
+			return ref.VObj(t, ref.VNum(a), ref.VStr(b), l)
+		}
+		p := func(a float64, b string, cs ...bool) c15P { return c15P{a, b, append([]bool{}, cs...)} }
+		q := func(a float64, b string, cs ...bool) c15Q { return c15Q{append([]bool{}, cs...), b, a} }
+		r := func(a float64, b string, cs ...bool) c15R { return c15R{b, a, append([]bool{}, cs...)} }
+		cases := []struct {
+			desc string
+			g    interface{}
+			w    *ref.V
+		}{
+			{"[]interface{}{P, Q, P}", []interface{}{p(1, "x", true), q(2, "y"), p(3, "z", false)}, ref.VList(t, mk(1, "x", true), mk(2, "y"), mk(3, "z", false))},
+			{"[]interface{}{Q, P, R, Q}", []interface{}{q(1, "x"), p(2, "y", true), r(3, "z"), q(4, "w", false, true)}, ref.VList(t, mk(1, "x"), mk(2, "y", true), mk(3, "z"), mk(4, "w", false, true))},
+			{"[3]interface{}{R, P, Q}", [3]interface{}{r(1, "x"), p(2, "y"), q(3, "z")}, ref.VList(t, mk(1, "x"), mk(2, "y"), mk(3, "z"))},
+			{"map[string]interface{}{P, Q}", map[string]interface{}{"k1": p(1, "x"), "k2": q(2, "y", true)}, ref.VMap(ref.TStr, t, ref.KV{K: ref.VStr("k1"), V: mk(1, "x")}, ref.KV{K: ref.VStr("k2"), V: mk(2, "y", true)})},
+			{"[][]interface{}{{P}, {Q, R}}", [][]interface{}{{p(1, "x")}, {q(2, "y"), r(3, "z")}}, ref.VList(ref.TList(t), ref.VList(t, mk(1, "x")), ref.VList(t, mk(2, "y"), mk(3, "z")))},
+			{"[]interface{}{&P, Q}", []interface{}{&c15P{1, "x", []bool{}}, q(2, "y")}, nil},
+		}
+		for _, tc := range cases {
+			ok := checkConv(c, tc.desc, reflect.ValueOf(tc.g), tc.w)
+			if !ok || tc.w == nil {
+				continue
+			}
+			// the elements keep their own fields when the expression reads them by name
+			for i := 0; i < 2; i++ {
+				src := fmt.Sprintf("v[%d].a", i)
+				if tc.w.T.K == ref.KMap {
+					src = fmt.Sprintf("v[\"k%d\"].a", i+1)
+				} else if tc.w.T.El.K == ref.KList {
+					src = fmt.Sprintf("v[%d][0].a", i)
+				}
+				val0, err := yae.Eval(src, map[string]interface{}{"v": tc.g})
+				want := float64(i + 1)
+				if err != nil || val0.Type.Kind != types.KNum || val0.Num().V != want {
+					c.Violation("conv-content", fmt.Sprintf("%s over %s yields %s (%v); the element's field a is %v", src, tc.desc, safeStr(val0), err, want), nil)
+				}
+			}
+		}
+		c.Distinct("mixed-layouts")
+	})
+}
+
 // time keys that differ only below the second stay distinct entries
 func c15TimeKeys(c *run.Ctx) {
 	if !c.Mine(5) {
@@ -228,6 +300,7 @@ func c15TimeKeys(c *run.Ctx) {
 func runC15(c *run.Ctx) {
 	c15SameNamedTypes(c)
 	c15TimeKeys(c)
+	c15MixedLayouts(c)
 	n := c.Pick(4000, 600000)
 	for i := 0; i < n; i++ {
 		if !c.Mine(i) {
@@ -426,7 +499,7 @@ func init() {
 	run.Register(&run.Spec{
 		ID: "C15", Run: runC15, Level: "exploration",
 		Rule: "Go types built by reflection (StructOf / SliceOf / ArrayOf / MapOf / PtrTo / interface{} boxing, depth <= 3): every numeric kind with its extreme values (MaxUint64, 2^63, 2^53+1, MaxFloat32 ...), strings incl. invalid UTF-8, time.Time and pointers to it, structs with renamed / untagged / optional fields (tag spelling variants), nil and non-nil pointers / slices / maps in optional and plain fields, empty and non-empty containers (sizes 0-3 and around 8..256, 513), maps keyed by string / integer kinds / time, large uniform slices / arrays / maps of one repeated element whose untagged nil-able parts may be nil; " +
-			"monitor: reference expectation generated together with the value: ValOf succeeds, the result is well-formed (walker), TypeOf(v) == ValOf(v).Type == type dictated by the Go shape, contents equal (numbers as doubles, instants, order, entries, fields under tag names); for interface-free shapes whose nil-able parts are non-nil or optional: two random values get equal types and 'compile against the first, invoke with the second' is accepted (as map entry, struct, pointer to struct); 26 error classes (nil, mixed interface data, nil / non-nil untagged pointers in one slice, unsupported kinds, depth 101 / 150, duplicate field names) must return an error from ValOf / TypeOf / ValEnvOf / TypeEnvOf. Go types declared inside different functions under one name, empty and non-empty values in every conversion order; map[time.Time] keys 1 ns .. 1 h apart. distinct = distinct Go type",
+			"monitor: reference expectation generated together with the value: ValOf succeeds, the result is well-formed (walker), TypeOf(v) == ValOf(v).Type == type dictated by the Go shape, contents equal (numbers as doubles, instants, order, entries, fields under tag names); for interface-free shapes whose nil-able parts are non-nil or optional: two random values get equal types and 'compile against the first, invoke with the second' is accepted (as map entry, struct, pointer to struct); 26 error classes (nil, mixed interface data, nil / non-nil untagged pointers in one slice, unsupported kinds, depth 101 / 150, duplicate field names) must return an error from ValOf / TypeOf / ValEnvOf / TypeEnvOf. Go types declared inside different functions under one name, empty and non-empty values in every conversion order; map[time.Time] keys 1 ns .. 1 h apart; interface-typed slices / arrays / maps whose elements are different Go struct types of one object type (other declaration order). distinct = distinct Go type",
 		Assume:    []string{"map keys that collide as doubles are not generated (inherent to 'numbers as doubles')"},
 		MinEvents: 5000, EventKey: "values_converted",
 	})
